@@ -407,3 +407,4 @@ Proof.
   - right; right. exact (Hexp w eq_refl).
   - cbv beta iota in S. rewrite orb_false_r in S. right; left. exact S.
 Qed.
+
